@@ -1,10 +1,78 @@
 import SieveModel.Model.Show
 import SieveModel.Model.TableCodec
 import SieveModel.Generated.Tables
+import SieveModel.Model.Client
 /-! Line-protocol driver: one request per line on stdin, one answer per line on stdout. -/
 
 structure DState where
   table : Table := Generated.builtinTable
+  client : Client := { r := { buf := [], net := { stream := [], sched := [] } } }
+
+def kv (fs : List String) (k : String) : String := TableCodec.field fs k
+def kvBytes (fs : List String) (k : String) : Bytes :=
+  let v := kv fs k
+  if v == "-" || v == "e" then [] else B.ofHex v
+def kvOptBytes (fs : List String) (k : String) : Option Bytes :=
+  let v := kv fs k
+  if v == "-" then none else if v == "e" then some [] else some (B.ofHex v)
+def kvSched (fs : List String) : List Nat :=
+  let v := kv fs "sched"
+  if v == "-" || v == "e" then [] else (v.splitOn ",").map String.toNat!
+
+def showErr : RErr → String
+  | .error => "error"
+  | .crash w => "crash " ++ ((w.splitOn ":").headD w)
+
+def showWrites (ws : List (Bool × Bytes)) : String :=
+  ",".intercalate (ws.map fun (t, b) => (if t then "t:" else "p:") ++ B.toHex b)
+
+def showBool (b : Bool) : String := if b then "b1" else "b0"
+def hexOr (b : Bytes) : String := if b.isEmpty then "e" else B.toHex b
+
+def showRes {α} (f : α → String) (before : Client) (r : Client.Res α) : DState → DState × String := fun st =>
+  let (res, c) := r
+  let newWrites := c.writes.drop (if c.writes.length ≥ before.writes.length then before.writes.length else 0)
+  let tail := s!" writes={showWrites newWrites} auth={showBool c.authenticated}"
+  match res with
+  | .error e => ({ st with client := c }, s!"res={showErr e}" ++ tail)
+  | .ok v => ({ st with client := c },
+      s!"res={f v}" ++ tail ++ s!" errcode={hexOr c.r.errcode} errmsg={hexOr c.r.errmsg} left={hexOr (c.r.buf ++ c.r.net.stream)}")
+
+def showOptBytes : Option Bytes → String
+  | none => "none"
+  | some b => "s:" ++ hexOr b
+
+def showListing : Option (Option Bytes × List Bytes) → String
+  | none => "none"
+  | some (a, l) => "ls:" ++ (match a with | none => "-" | some x => hexOr x) ++ ":" ++ ",".intercalate (l.map hexOr)
+
+def clientOp (st : DState) (fs : List String) : DState × String :=
+  let c0 := st.client
+  -- optional new server bytes / schedule for this operation
+  let c : Client :=
+    let c1 := match kvOptBytes fs "stream" with
+      | some b => { c0 with r := { c0.r with net := { c0.r.net with stream := c0.r.net.stream ++ b } } }
+      | none => c0
+    if kv fs "sched" == "-" then c1 else { c1 with r := { c1.r with net := { c1.r.net with sched := kvSched fs } } }
+  match kv fs "op" with
+  | "new" => ({ st with client := { r := { buf := [], net := { stream := [], sched := [] } } } }, "ok")
+  | "connect" =>
+    let env : ConnEnv := { tcpOk := kv fs "tcp" != "0", tlsOk := kv fs "tlsok" != "0" }
+    let net : Net := { stream := kvBytes fs "stream", sched := kvSched fs }
+    showRes showBool { c0 with writes := [] }
+      (Client.connect c0 env net (kvBytes fs "login") (kvBytes fs "pw") (kvBytes fs "authz")
+        (kv fs "starttls" == "1") (kvOptBytes fs "mech")) st
+  | "havespace" => showRes showBool c (Client.havespace c (kvBytes fs "a") (kv fs "n").toNat!) st
+  | "putscript" => showRes showBool c (Client.putscript c (kvBytes fs "a") (kvBytes fs "b")) st
+  | "deletescript" => showRes showBool c (Client.deletescript c (kvBytes fs "a")) st
+  | "setactive" => showRes showBool c (Client.setactive c (kvBytes fs "a")) st
+  | "checkscript" => showRes showBool c (Client.checkscript c (kvBytes fs "a")) st
+  | "renamescript" => showRes showBool c (Client.renamescript c (kvBytes fs "a") (kvBytes fs "b")) st
+  | "getscript" => showRes showOptBytes c (Client.getscript c (kvBytes fs "a")) st
+  | "listscripts" => showRes showListing c (Client.listscripts c) st
+  | "capability" => showRes showOptBytes c (Client.capability c) st
+  | "logout" => showRes (fun _ => "none") c (Client.logout c) st
+  | _ => (st, "bad-op")
 
 def lexAnswer (t : Bytes) : String :=
   match Lex.lex t with
@@ -29,6 +97,7 @@ def answer (st : DState) (line : String) : DState × String :=
     match TableCodec.defOf fs with
     | some d => ({ st with table := st.table.register d }, "ok")
     | none => (st, "bad-def")
+  | "c" :: fs => clientOp st fs
   | _ => (st, "bad-request")
 
 partial def loop (h : IO.FS.Stream) (out : IO.FS.Stream) (st : DState) : IO Unit := do
